@@ -17,7 +17,8 @@ deriving Repr, Inhabited
 abbrev SCall := Call String PF PF (List Int) Int
 abbrev SModel := Model String PF PF (List Int) Int
 
-def decName (s : String) : String := if s == "~" then "" else s
+/-- `~` = the empty name; U+2423 = a blank inside a name -/
+def decName (s : String) : String := if s == "~" then "" else s.replace "␣" " "
 
 def parsePF (l : Array String) (at_ : Nat) : PF :=
   { arity := natAt l at_, code := ((l.getD (at_ + 1) "").toInt?).getD 0,
@@ -52,7 +53,7 @@ def probeSem (base : Int) : Sem PF PF (List Int) Int (List Int) where
   vlen v := v.length
   zeroV n := List.replicate n 0
 
-def encName (s : String) : String := if s == "" then "~" else s
+def encName (s : String) : String := if s == "" then "~" else s.replace " " "␣"
 def encNames (l : List String) : String := " ".intercalate (l.map encName)
 
 def bErrStr : BErr String → String
@@ -128,7 +129,7 @@ def stepOp (sem : Sem PF PF (List Int) Int (List Int)) (names : List String)
   | "params" =>
     let ps (l : List Int) := l.foldl (fun s v => s ++ " " ++ toString v) ""
     -- `SeparableModel::parameters()`: the names in model order
-    let encN (l : List String) := " ".intercalate (l.map fun s => if s.isEmpty then "~" else s)
+    let encN (l : List String) := " ".intercalate (l.map fun s => if s.isEmpty then "~" else s.replace " " "␣")
     let model := s!"ok {st.model.params.length}{ps st.model.params} | {st.model.names.length} {st.model.fns.length} {st.model.x.length} | {encN st.model.names}"
     let nfn := (items.filter Item.isFnLike).length
     let spec := s!"ok {st.specParams.length}{ps st.specParams} | {names.length} {nfn} {st.model.x.length} | {encN names}"
